@@ -641,7 +641,7 @@ def c04_job(job) -> List[Dict[str, Any]]:
         return [_inst("R4.6", "UNDECIDED", roles, "rate", "pairing kind of the model", f"abstract evaluation failed: {type(e).__name__}: {e}")]
     if partial is None:
         return [_inst("R4.6", "UNDECIDED", roles, "rate", "pairing kind of the model", "cannot tell full from partial pairing on a three-team game")]
-    for sizes, mode in [(sz, "ranks") for sz in _sizes(tier)] + [(sz, "scores") for sz in _sizes(tier) if max(sz) == 1]:
+    for sizes, mode in [(sz, "ranks") for sz in _sizes(tier) + [(3, 1)]] + [(sz, "scores") for sz in _sizes(tier) if max(sz) == 1]:
         n = len(sizes)
         for lv in weak_orderings(n):
             try:
@@ -661,8 +661,10 @@ def c04_job(job) -> List[Dict[str, Any]]:
                 order[k], order[k + 1] = order[k + 1], order[k]
                 variants.append((f"teams {k} and {k + 1} exchanged", dict(order=order)))
             for i, sz in enumerate(sizes):
-                if sz >= 2:
-                    variants.append((f"players 0 and 1 of team {i} exchanged", dict(player_order={i: [1, 0] + list(range(2, sz))})))
+                for j in range(sz - 1):
+                    po = list(range(sz))
+                    po[j], po[j + 1] = po[j + 1], po[j]
+                    variants.append((f"players {j} and {j + 1} of team {i} exchanged", dict(player_order={i: po})))
             for what, kw in variants:
                 desc = f"same posterior for every player: team sizes {sizes}, {mode} {describe(lv)}, {what}"
                 try:
